@@ -71,6 +71,55 @@ def check(repo: Repo, rep: Report) -> None:
         TC_.check_operator(repo, rep, "K1-signature", O + key_,
                            lambda k, slot: "A source factory emits exactly its specified notifications: elements, then one terminal notification, "
                                            "and nothing after an error it reported.")
+    # Y8: the public creation functions (reactivex.range, reactivex.timer, reactivex.from_marbles, ...) hand their parameters to the
+    # implementation in their roles (same delegation-agreement engine as C39, applied to reactivex/__init__.py)
+    rep.rule("Y8-factory-forwarding", "public creation functions forward every parameter to their implementation, by role / name, unchanged", floor=30)
+    from ..engines.delegation import find_applications as _fa, implementation as _impl, signature as _sig
+    from .C39 import check_forwarding as _cf
+    top = repo.by_modname.get("reactivex")
+    if top is not None:
+        seen_ = set()
+        for f_ in top.root.children:
+            if not f_.is_func or f_.has_decorator("overload") or f_.name.startswith("_") or f_.name in seen_:
+                continue
+            f_ = _impl(repo, "reactivex", f_.name) or f_
+            seen_.add(f_.name)
+
+            def is_impl_(e, f_=f_):
+                t = repo.resolve_expr(f_, e)
+                return t is not None and t.is_func and t.module is not top and t.module.rel.startswith("reactivex/") and t.module.rel != "reactivex/pipe.py"
+            apps_ = [a for a in _fa(f_, is_impl_) if a.call is not None]
+            ws_ = _sig(f_)
+            for app in apps_:
+                impl = repo.resolve_expr(f_, app.target)
+                if any(isinstance(a_, ast.Starred) for a_ in app.call.args) and [a_.arg for a_ in impl.node.args.args]:
+                    # `impl(*sources)` where impl(parent, *rest): the starred argument fills named parameters; roles are positional
+                    ok_star = len(app.call.args) == 1 and not app.call.keywords and f_.node.args.vararg is not None and u(app.call.args[0].value) == f_.node.args.vararg.arg
+                    rep.ob("Y8-factory-forwarding", f_, f"reactivex.{f_.name}: `{short(app.call, 50)}` passes all its sources on", ok_star,
+                           f"reactivex.{f_.name} does not hand all its sources to {impl.name}")
+                    continue
+                _cf(rep, "Y8-factory-forwarding", f_, ws_, app, impl, _sig(impl, 1 if impl.has_decorator("curry_flip") else 0), f"reactivex.{f_.name}")
+    from ..model import model_of as _mo_
+    m_ = _mo_(repo)
+    from ..model import is_schedule_call as _isc_
+    rep.rule("Y9-scheduler-resolved", "the scheduler a source schedules its emission on is resolved by `given or subscribe-time or <default>()`: never None", floor=8)
+    for rel_ in ("returnvalue.py", "empty.py", "throw.py", "timer.py", "range.py", "fromiterable.py", "generate.py", "generatewithrelativetime.py"):
+        mod_ = repo.opt_module(O + rel_)
+        if mod_ is None:
+            continue
+        for g_ in mod_.root.walk():
+            if not (g_.is_func and m_.role.get(g_) == "subscribe"):
+                continue
+            for x_ in sites(g_):          # schedule calls made by the subscribe function itself (the first step)
+                if not _isc_(x_.node) or not isinstance(x_.node.func.value, ast.Name):
+                    continue
+                R = x_.node.func.value.id
+                defs_ = [n_.value for n_ in g_.direct_nodes() if isinstance(n_, (ast.Assign, ast.AnnAssign)) and n_.value is not None
+                         and u(n_.targets[0] if isinstance(n_, ast.Assign) else n_.target) == R]
+                ok_ = len(defs_) == 1 and isinstance(defs_[0], ast.BoolOp) and isinstance(defs_[0].op, ast.Or) and isinstance(defs_[0].values[-1], ast.Call)
+                rep.ob("Y9-scheduler-resolved", g_, f"{g_.qual}: `{short(x_.node, 40)}` on `{R} = {short(defs_[0], 60) if defs_ else '<parameter>'}`", ok_,
+                       f"{g_.qual} schedules on `{R}`, which is not resolved through `... or <default scheduler>()`: when neither the factory nor "
+                       f"subscribe() was given a scheduler it is None and the subscription fails with AttributeError instead of emitting")
     rep.rule("Y7-no-shortcut", "a primitive source factory has one result: the observable built from its subscribe function (no argument-dependent early return)", floor=9)
     for rel_, q_ in (("range.py", "range_"), ("fromiterable.py", "from_iterable_"), ("generate.py", "generate_"), ("generatewithrelativetime.py", "generate_with_relative_time_"),
                      ("returnvalue.py", "return_value_"), ("returnvalue.py", "from_callable_"), ("empty.py", "empty_"), ("throw.py", "throw_"), ("never.py", "never_"),
